@@ -1289,7 +1289,14 @@ class C06(Property):
         return self._descr(u)
 
     def _chain(self, URL, d):
-        return [d, self._stage(URL, d['tfull']), self._stage(URL, d['tmin'])]
+        """[d, URL(d.tfull), URL(d.tmin)].  When a re-parsed URL renders differently from the text it was parsed from
+        (never with the code as it stands; it would with a parser that normalises, e.g. lower-cases scheme and host), that
+        rendering is parsed and rendered once more ('re'): the fixed-point clause is about the rendering of a PARSED URL"""
+        d1, d2 = self._stage(URL, d['tfull']), self._stage(URL, d['tmin'])
+        for dd, key in ((d1, 'tfull'), (d2, 'tmin')):
+            if isinstance(dd, dict) and 'exc' not in dd and isinstance(dd[key], str) and dd[key] != d[key]:
+                dd['re'] = self._stage(URL, dd[key])
+        return [d, d1, d2]
 
     @staticmethod
     def _fresh_texts(mk):
@@ -1485,7 +1492,7 @@ class C06(Property):
     def _r_chain(self, ch):
         if len(ch) == 1:
             return self._r_descr(ch[0])
-        d0, d1, d2 = ch
+        d0, d1, d2 = ch[:3]
         if not d0['host'].isascii():
             d1 = None
         return ' | '.join([self._r_descr(d0), self._r_descr(d1), self._r_descr(d2)])
@@ -1635,22 +1642,32 @@ class C06(Property):
             return Failure('quote_legal', 'to_text(full_quote=True) = %r: %s' % (tfull, bad))
         if d1 is None or 'exc' in d1:
             return Failure('roundtrip', 'URL(%r) raised %s' % (tfull, d1 and d1['exc']))
-        exp = {'scheme': case['scheme'], 'user': nfc(case['user']), 'pw': nfc(case['pw']), 'port': case['port'],
+        exp = {'user': nfc(case['user']), 'pw': nfc(case['pw']), 'port': case['port'],
                'parts': [nfc(p) for p in case['parts']],
                'query': [[nfc(kk), None if vv is None else nfc(vv)] for kk, vv in case['query']],
                'frag': nfc(case['frag'])}
-        if case['host'].isascii():
-            exp['host'] = case['host']
         for key, want in exp.items():
             if d1[key] != want:
                 return Failure('roundtrip', '%s: put %r, got %r back from %r' % (key, want, d1[key], tfull))
+        # scheme and host are not among the texts the statement promises to give back exactly; they are the premise
+        # ("a valid scheme, host and port") and the neighbours nothing may leak into: demanded up to the
+        # case-insensitivity RFC 3986 6.2.2.1 gives them (a parser may normalise them to lower case)
+        if d1['scheme'].lower() != case['scheme'].lower():
+            return Failure('roundtrip', 'scheme: put %r, got %r back from %r' % (case['scheme'], d1['scheme'], tfull))
+        if case['host'].isascii() and d1['host'].lower() != case['host'].lower():
+            return Failure('roundtrip', 'host: put %r, got %r back from %r' % (case['host'], d1['host'], tfull))
         if not case['host'].isascii() and not d1['host']:
             return Failure('roundtrip', 'host lost in %r' % (tfull,))
         if d1['tfull'] != tfull:
-            return Failure('fixed_full', 'to_text(True) %r re-parsed renders %r' % (tfull, d1['tfull']))
-        return self.check_min_fixed(d0, d2)
+            # tfull is the rendering of a BUILT object; the clause is "rendering of a PARSED URL, parsed and rendered
+            # again, gives the same text": judge the rendering of the parsed-back URL
+            re_ = d1.get('re')
+            if re_ is None or 'exc' in re_ or re_['tfull'] != d1['tfull']:
+                return Failure('fixed_full', 'URL(%r) renders %r, which re-parsed renders %r' % (
+                    tfull, d1['tfull'], re_ and (re_.get('tfull') or re_.get('exc'))))
+        return self.check_min_fixed(d0, d2, built=True)
 
-    def check_min_fixed(self, d0, d2):
+    def check_min_fixed(self, d0, d2, built=False):
         comps = [d0['user'], d0['pw'], d0['host'], d0['frag']] + d0['parts'] + [x for kv in d0['query'] for x in kv if x]
         self.stats['fixed_full_checked'] = self.stats.get('fixed_full_checked', 0) + 1
         if any('%' in c for c in comps):
@@ -1662,6 +1679,11 @@ class C06(Property):
         if d2 is None or 'exc' in d2:
             return Failure('fixed_min', 'URL(%r) (minimal rendering) raised %s' % (tmin, d2 and d2['exc']))
         if d2['tmin'] != tmin:
+            if built:   # d0 was built, not parsed: the clause speaks of the rendering of the parsed URL d2
+                comps2 = [d2['user'], d2['pw'], d2['host'], d2['frag']] + d2['parts'] + [x for kv in d2['query'] for x in kv if x]
+                re_ = d2.get('re')
+                if not any('%' in c for c in comps2) and re_ is not None and 'exc' not in re_ and re_['tmin'] == d2['tmin']:
+                    return None
             return Failure('fixed_min', 'to_text(False) %r re-parsed renders %r' % (tmin, d2['tmin']))
         return None
 
